@@ -29,8 +29,9 @@ def native_replay_m(prop, replay_inj, replay_test, payload):
         return False, path, out[-1500:]
 
 
-def run_m(prop, tier, seed, ev, ex, obligations, replay_inj=None, replay_test=None):
-    """obligations: list of (name, role, thunk). Returns 0/1/2."""
+def run_m(prop, tier, seed, ev, ex, obligations, replay_inj=None, replay_test=None, replay_fn=None):
+    """obligations: list of (name, role, thunk). Returns 0/1/2.
+    replay_fn(ob) -> (reproduced True/False/None, text): custom native replay (e.g. crash injection)"""
     rc, viol = 0, False
     import random
     order = list(obligations)
@@ -63,7 +64,16 @@ def run_m(prop, tier, seed, ev, ex, obligations, replay_inj=None, replay_test=No
         r_test = replay_test(ob) if callable(replay_test) else replay_test
         payload = {"property": prop, "obligation": name, "role": role, "detail": ob.detail,
                    "values": ob.cex, "replay_test": r_test, "source_digest": vlib.src_digest()}
-        reproduced, path, out = native_replay_m(prop, r_inj or [], r_test, payload)
+        custom = replay_fn(ob) if replay_fn is not None else None
+        if custom is not None:
+            path = vlib.write_replay(prop, payload)
+            try:
+                reproduced, out = custom
+            except Exception:
+                reproduced, out = None, str(custom)
+        else:
+            reproduced, path, out = native_replay_m(prop, r_inj or [], r_test, payload)
+        role = getattr(ob, "role", None) or role
         kf = vlib.known_finding_for(prop, role)
         if reproduced is True:
             if kf:
